@@ -37,6 +37,12 @@ func (e *Engine) constTable(pi *PkgInfo, name string) (*tableInfo, string) {
 		return ti, ti.why
 	}
 	ti, why := e.constTable1(pi, name)
+	if ti != nil && !ti.runtime && len(ti.vals) > 8192 {
+		// a very large literal (the js lexer's 16080-entry transition table): quantified facts over
+		// that many literal equalities time the solvers out; they are evaluated on the initialised
+		// variable instead (exact for a constant table, reported as decided by evaluation)
+		ti.runtime = true
+	}
 	e.tables[key] = ti
 	return ti, why
 }
